@@ -497,6 +497,22 @@ def run(ctx):
         else:
             r4.violation(key, "the raw English candidate is pushed without being compared with the candidates already in the list: a typed text the conversion leaves "
                          "unchanged (`\\` alone: transliteration `\\`, English `\\`) occurs twice", site_of(p.outer_body, p.outer_bb))
+    # the literal typed text offered next to the emoji of an emoticon: the same question
+    for p in events:
+        if p.item is None or classify_source(prog, p) != "emoticon-literal":
+            continue
+        key = "emoticon-literal-unchecked" if p.kind == "push" else "emoticon-literal@%s" % p.fn.split("::")[-1]
+        if p.kind == "push_checked":
+            r4.ok(key, "the emoticon's literal text enters through the checked push")
+            continue
+        gs_ = builders.effective_guards(prog, p.outer_body, p.outer_bb)
+        compared = any(d.k == "call" and (d.a[0].endswith("::contains") or d.a[0].endswith("Iterator>::any") or d.a[0].endswith("::position"))
+                       and any(self_path(x) is not None and self_path(x)[:1] == (_R["rank_list"],) for x in d.walk()) for (d, pol, s_) in gs_)
+        if compared:
+            r4.ok(key, "the emoticon's literal text is pushed only when the list does not contain it")
+        else:
+            r4.violation(key, "the literal text of a typed emoticon is pushed without being compared with the candidates already in the list: an emoticon the "
+                         "conversion leaves unchanged (`=\\`: transliteration `=\\`, literal `=\\`) occurs twice", site_of(p.outer_body, p.outer_bb))
     r4.floor(5, "helper, equality, dictionary/suffix loop, transliteration, English")
 
     # ---------------- R5 the bundled tables are the data files'
